@@ -10,7 +10,6 @@ import (
 	"github.com/corazawaf/coraza/v3/internal/corazatypes"
 	utils "github.com/corazawaf/coraza/v3/internal/strings"
 	"github.com/corazawaf/coraza/v3/types"
-	"github.com/corazawaf/coraza/v3/types/variables"
 )
 
 // RuleGroup is a collection of rules
@@ -298,13 +297,15 @@ type transformationKey struct {
 	// transaction phase and we would never have different string pointers with the same
 	// content, or more problematically same pointer for different content, as the strings
 	// will be alive throughout the phase.
-	argKey            *byte
-	argIndex          int
-	argVariable       variables.RuleVariable
+	argValue          *byte
+	argValueLen       int
 	transformationsID int
 }
 
 type transformationValue struct {
-	arg  string
-	errs []error
+	// input pins the original value so that its memory cannot be reused by a
+	// different string while the entry is alive.
+	input string
+	arg   string
+	errs  []error
 }
